@@ -126,6 +126,11 @@ def corruption_catalogue(inst: dict):
                 cat.append(("out_of_range", sec, key))
             if isinstance(v, str):
                 cat.append(("unknown_enum", sec, key))
+    # optional members of the schemas that a written base file does not carry
+    for sec, key in (("loads", "heat_pump_loads"), ("simulation", "start_month"), ("simulation", "timestep"),
+                     ("design", "max_boreholes"), ("design", "continue_if_design_unmet")):
+        if isinstance(inst.get(sec), dict) and key not in inst[sec]:
+            cat.append(("optional_invalid", sec, key))
     cat.append(("loads_short", "loads", "ground_loads"))
     cat.append(("loads_long", "loads", "ground_loads"))
     cat.append(("loads_nonnumeric", "loads", "ground_loads"))
@@ -160,6 +165,11 @@ def apply_corruption(inst: dict, c, rng: random.Random) -> dict:
         q[sec][key] = rng.choice([-1.0, -1e9, -0.001, 1e12, 90.001, -90.001, 60.5, 0, 0.5])
     elif kind == "unknown_enum":
         q[sec][key] = rng.choice(["NOPE", "", "WATER ", "water2", "SINGLE_U_TUBE", "BOREHOLES", "hybrid!"])
+    elif kind == "optional_invalid":
+        q[sec][key] = {"heat_pump_loads": rng.choice([[1.0] * 10, "none", [None] * 8760, [0.0] * 8761]),
+                       "start_month": rng.choice(["SMARCH", 3, None]), "timestep": rng.choice(["DAILY", 1, ["HYBRID"]]),
+                       "max_boreholes": rng.choice(["ten", None, [10]]),
+                       "continue_if_design_unmet": rng.choice(["yes", 1, None])}[key]
     elif kind == "loads_short":
         q["loads"]["ground_loads"] = q["loads"]["ground_loads"][:8759]
     elif kind == "loads_long":
@@ -173,7 +183,13 @@ def apply_corruption(inst: dict, c, rng: random.Random) -> dict:
 
 def validity_preserving_edit(inst: dict, rng: random.Random) -> tuple:
     q = copy.deepcopy(inst)
-    kind = rng.choice(["case", "case", "extra_key", "version", "timestep", "optional_add"])
+    kind = rng.choice(["case", "case", "extra_key", "version", "timestep", "optional_add", "optional_add_loads", "start_month"])
+    if kind == "optional_add_loads":
+        q["loads"]["heat_pump_loads"] = [0.0] * 8760
+        return q, "optional:heat_pump_loads"
+    if kind == "start_month":
+        q["simulation"]["start_month"] = rng.choice(["JANUARY", "MARCH", "DECEMBER"])
+        return q, "optional:start_month"
     if kind == "case":
         sec, key = rng.choice(CASE_FIELDS[:4])
         s = q[sec][key]
@@ -271,6 +287,9 @@ def draw_job(seed: int, prop: str, index: int, tier: str, n_inv: int, design_fra
     for j in range(n_inv):
         invs.append(draw_invocation(rng, design_fraction))
     return {"engine": "E2", "property": prop, "cfg": cfg, "invocations": invs, "index": index,
+            # half of the jobs keep ONE input path for all their invocations (a batch driver that edits a file in place and
+            # re-runs it): whatever the tool remembers about a path must not outlive the content
+            "shared_input_path": rng.random() < 0.5,
             "clock": {"start": rng.randrange(0, 10 ** 8), "step": rng.choice([0.25, 1.0, 3600.0])}}
 
 
@@ -418,7 +437,7 @@ def _one_invocation(job, j, inv, rootp: Path, base_text, base_inst, catalogue, m
     rng = random.Random(inv["seed"])
     rundir = rootp / f"inv{j}"
     os.mkdir(rundir)
-    in_path = rundir / "input.json"
+    in_path = (rootp / "input.json") if job.get("shared_input_path") else (rundir / "input.json")
     fault_desc = "none"
     text = base_text
     raw = None
@@ -482,9 +501,9 @@ def _one_invocation(job, j, inv, rootp: Path, base_text, base_inst, catalogue, m
                     (outdir / name).write_text("STALE SUMMARY\nMonthly Temperature Summary\n" + "*" * 100 + "\n")
                 else:
                     (outdir / name).write_text("stale,stale\n" * 9000)
-    shim = seams.FileShim(str(rundir), [f for f in inv["io_faults"] if f.get("phase") != "convert"])
+    shim = seams.FileShim(str(rootp), [f for f in inv["io_faults"] if f.get("phase") != "convert"])
     if swap is not None:
-        shim.read_hooks["input.json"] = lambda n, _s=swap: _s if n == 2 else None
+        shim.read_hooks[os.path.relpath(str(in_path), str(rootp))] = lambda n, _s=swap: _s if n == 2 else None
     memo.current_key = digest(raw) if verdict == "valid" and swap is None else None
     if memo.current_key is None and verdict == "valid" and expect_files:
         memo.current_key = None
@@ -507,7 +526,7 @@ def _one_invocation(job, j, inv, rootp: Path, base_text, base_inst, catalogue, m
     if expect_files or flags == "outdir_is_file":
         obs["out_problems"] = _complete_outputs(outdir) if outdir.is_dir() else ["missing:outdir"]
     if flags == "convert_idf_after" and res["status"] == 0 and not obs.get("out_problems"):
-        shim2 = seams.FileShim(str(rundir), [dict(f, nth=f["nth"] - 6) for f in inv["io_faults"] if f.get("phase") == "convert"])
+        shim2 = seams.FileShim(str(rootp), [dict(f, nth=f["nth"] - 6) for f in inv["io_faults"] if f.get("phase") == "convert"])
         with shim2:
             res2 = seams.run_cli(["--convert", "IDF", str(outdir / "SimulationSummary.json")])
         obs["convert"] = {"status": res2["status"], "exc": res2["exc"], "io_fired": list(shim2.fired),
